@@ -243,4 +243,29 @@ def adjustSimple (points deltas : List Pt) : List Pt :=
   let shift := (adj.getD (points.length - 4) (0, 0)).1
   (adj.take (points.length - 4)).map fun p => (p.1 - shift, p.2)
 
+/-- one component of a composite glyph as `load_composite` sees it after loading it: the child's
+adjusted points (own deltas applied, not yet shifted), the x of the child's first phantom point
+after the child's deltas, the USE_MY_METRICS flag, the component's `(x, y)` offset -/
+structure Comp where
+  pts : List Pt
+  pp0x : Int
+  useMyMetrics : Bool
+  offset : Pt
+
+/-- `load_composite`, FreeType style, unscaled, offset-anchored components without transform:
+the composite's phantom points get `Fixed::to_i32` of their deltas (entries `ncomp ..`); every
+component's points are moved by `offset + Fixed::to_i32(delta_i)`; a component with USE_MY_METRICS
+leaves ITS phantom points in place of the composite's (later ones win); finally
+`ScaledOutline::new` shifts everything by the first phantom point's x. -/
+def adjustComposite (pp0x : Int) (deltas : List Pt) (comps : List Comp) : List Pt :=
+  let ownPp0 := pp0x + Fixed.toI32 (deltas.getD comps.length (0, 0)).1
+  let finalPp0 := comps.foldl (fun acc c => if c.useMyMetrics then c.pp0x else acc) ownPp0
+  let moved := (List.range comps.length).flatMap fun i =>
+    match comps[i]? with
+    | none => []
+    | some c =>
+      let d := deltas.getD i (0, 0)
+      c.pts.map fun p => (p.1 + (c.offset.1 + Fixed.toI32 d.1), p.2 + (c.offset.2 + Fixed.toI32 d.2))
+  moved.map fun p => (p.1 - finalPp0, p.2)
+
 end FontVerif.GvarApply
